@@ -17,6 +17,30 @@ HAND = [
     "from t | select {a} | intersect (from u | select {a})",
     "from s\"SELECT * FROM t\" | derive {x = s\"f({a})\"} | take 2",
     "from t | sort {a, -b} | take 2..3 | derive {l = lag 1 a} | sort l | take 1",
+    # unnamed columns through append / join of a sub-pipeline
+    "from t | select {a, b + 1} | append (from u | select {a, c})",
+    "from t | select {a + 1, b} | append (from u | select {k, c})",
+    "from t | join (from u | select {k, c + 1}) (==k)",
+    "from t | join (from u | group k (aggregate {max c})) (==k) | sort a",
+    "from t | join side:left (from u | derive {c * 2} | select {k, c}) (==k) | select {t.a, c}",
+    # sorts around sub-pipelines
+    "from t | sort a | join (from u | sort c | take 2) (==k) | take 3",
+    "from t | sort a | append (from u | sort c | select {k, a, c}) | take 3",
+    "from t | join (from u | sort {-c}) (==k) | sort {t.a} | take 1",
+    # select inside group, exclusion, wildcards
+    "from t | group a (select {b})",
+    "from t | group a (select {a, b} | take 1)",
+    "from t | select !{a} | derive {x = b + 1} | filter x > 1",
+    "from t | select !{a} | sort a",
+    "from t | join u (==k) | select {t.*, u.c} | take 2",
+    "from t | select {t.*} | join u (==k) | select !{u.k}",
+    # a relation-valued function whose parameter is used twice
+    "let twice = rel -> (rel | append rel)\nfrom t | select {k, a} | twice",
+    "let top = n rel -> (rel | sort {-a} | take n)\nfrom t | top 2 | join (from u | top 1) (==k)",
+    "from t | group a (append (from t | select {k, a, b}) | take 1)",
+    "from t | select {x = a, x = b}",
+    "from t | select {a, a}",
+    "from t | derive {c = 1} | join (from u | derive {d = 2}) (==k) | group {t.a} (aggregate {s = sum c + d})",
 ]
 
 def check(tier):
@@ -31,6 +55,8 @@ def check(tier):
     p1, info = l1.mc_generate("C16-mc", m, dbset, workers=8)
     progs += p1
     states, transitions = info["distinct"], info["generated"]
+    p5, info5 = l1.mc_generate("C16-mc5", model([from_("t")], l1props.alph_c05(), 3 if tier == "quick" else 4), dbset, workers=8)
+    progs += p5; states += info5["distinct"]; transitions += info5["generated"]
     for sl in (l1props.slots_c04_top, l1props.slots_c04_group):
         p2, info2 = l1.mc_generate("C16-slots", model([from_("t")], sl("quick"), 4), dbset, workers=8)
         states += info2["distinct"]; transitions += info2["generated"]
@@ -49,8 +75,10 @@ def check(tier):
     write_ndjson(os.path.join(d, "progs.ndjson"), allp)
     pv(["render-ndjson", dbset, os.path.join(d, "progs.ndjson"), os.path.join(d, "src.ndjson")])
     srcs = read_ndjson(os.path.join(d, "src.ndjson"))
+    decl = "module default_db {\n  let t <[{k = int, a = int, b = int}]>\n  let u <[{k = int, a = int, c = int}]>\n}\n"
     for i, s in enumerate(HAND):
         srcs.append({"id": f"h{i}", "src": s})
+        srcs.append({"id": f"hd{i}", "src": decl + s})
     for f in sorted(glob.glob("/repo/prqlc/prqlc/tests/integration/queries/*.prql")):
         srcs.append({"id": "q-" + os.path.basename(f), "src": open(f).read()})
     write_ndjson(os.path.join(d, "src.ndjson"), srcs)
